@@ -28,7 +28,7 @@ def main():
     os.makedirs(os.path.dirname(out), exist_ok=True)
     with open(out, "w") as f:
         f.write("checks: %s\n" % " ".join(pids))
-        cov.report(file=f, show_missing=True, skip_empty=True)
+        cov.report(file=f, show_missing=True, skip_empty=True, ignore_errors=True, omit=["*transliterated*"])
     print(open(out).read())
     shutil.rmtree(d, ignore_errors=True)
 
